@@ -38,3 +38,19 @@ def concrete(value):
     from crosshair.tracers import NoTracing
 
     return deep_realize(value), NoTracing()
+
+
+BLOCK = 16
+
+
+def nblocks(total, k=BLOCK):
+    """realised-input harnesses: the solver enumerates BLOCKS of k consecutive input codes (CrossHair costs ~0.2 s per path whatever
+    the body does); the body is run concretely for every code of the block, so the whole domain 0..total-1 is still covered"""
+    return (total + k - 1) // k
+
+
+def run_block(block, total, body, k=BLOCK):
+    for code in range(block * k, min(total, (block + 1) * k)):
+        if not body(code):
+            return False
+    return True
